@@ -68,6 +68,32 @@ theorem adjacent (r r1 r2 : CollapseSequence R I) (v w : V) (i j : I) (hi : Inv 
       simp only [hq, Option.map_some, Option.some.injEq, Prod.mk.injEq] at h2
       obtain ⟨rfl, rfl⟩ := h2
       exact Or.inr ⟨hne i u hl hu, rfl, rfl⟩
+
+/-- **C11 over histories**: after any sequence of successful pushes the remembered index is the last index handed out
+(the one before the sequence if it was empty) — so by `adjacent` every push of every history is decided against exactly
+the item its predecessor's index reads, whatever happened before. -/
+theorem last_after_history (r r' : CollapseSequence R I) (vs : List V) (hi : Inv r)
+    (h : C08.runPushes r vs = some r') : r'.last = ((C08.trace r vs).getLast?).or r.last := by
+  induction vs generalizing r with
+  | nil =>
+    simp only [C08.runPushes, Option.some.injEq] at h
+    subst h
+    simp [C08.trace]
+  | cons v vs ih =>
+    cases hp : push r v with
+    | none => simp [C08.runPushes, hp] at h
+    | some p =>
+      obtain ⟨r1, i⟩ := p
+      simp only [C08.runPushes, hp] at h
+      have hi1 := (LawfulRegion.push_inv r r1 v i hi hp).1
+      have hl := last_tracks r r1 v i hi hp
+      rw [ih r1 hi1 h, hl]
+      simp only [C08.trace, hp]
+      cases ht : C08.trace r1 vs with
+      | nil => simp
+      | cons j t =>
+        have hne : j :: t ≠ [] := by simp
+        simp [List.getLast?_eq_some_getLast hne]
 end C11
 
 namespace C12
